@@ -25,6 +25,7 @@ pub fn spec_for(prop: &str) -> Option<Spec> {
         "C15" => Spec { gen: crate::settable::generate, quick_runs: 30_000, thorough_runs: 1_500_000 },
         "C17" => Spec { gen: crate::refs::generate, quick_runs: 20_000, thorough_runs: 1_000_000 },
         "C16" => Spec { gen: gen_c16, quick_runs: 4_000, thorough_runs: 200_000 },
+        "C19" | "C19ill" => Spec { gen: gen_c19, quick_runs: 300, thorough_runs: 30_000 },
         _ => return None,
     })
 }
@@ -89,5 +90,34 @@ fn gen_c16(prop: &str, tier: crate::core::Tier, rng: &mut crate::rng::Rng, seed:
     match run % 4 {
         0 | 1 | 2 => crate::comb::gen_c16(prop, tier, rng, seed, run / 4 * 3 + run % 4),
         _ => crate::dev_gen::gen_c16(prop, tier, rng, seed, run / 4),
+    }
+}
+
+/// C19: the same plans are executed by simulators linked against rrtk in six feature
+/// configurations. "C19" plans are well-dimensioned by construction and span the worlds;
+/// "C19ill" plans deliver quantities in wrong / changing units (run only where checking is off).
+fn gen_c19(prop: &str, tier: crate::core::Tier, rng: &mut crate::rng::Rng, seed: u64, run: u64) -> Plan {
+    if prop == "C19ill" {
+        return match run % 3 {
+            0 => {
+                let kinds = ["a2s", "v2s", "p2s"];
+                crate::node_gen::gen_node(prop, kinds[(run / 3 % 3) as usize], 1, tier, rng, seed, run)
+            }
+            1 => {
+                let kinds = ["integral", "derivative", "ewma_q", "ma_q", "q2f"];
+                crate::node_gen::gen_node(prop, kinds[(run / 3 % 5) as usize], 1, tier, rng, seed, run)
+            }
+            _ => crate::comb::generate(prop, tier, rng, seed, run),
+        };
+    }
+    match run % 8 {
+        0 => crate::node_gen::gen_node(prop, crate::node_gen::C05_KINDS[(run / 8 % 14) as usize], 1, tier, rng, seed, run),
+        1 => crate::node_gen::gen_node(prop, crate::node_gen::C05_KINDS[(run / 8 % 14) as usize], 2, tier, rng, seed, run),
+        2 => crate::node_gen::gen_node(prop, crate::node_gen::C05_KINDS[(run / 8 % 14) as usize], 0, tier, rng, seed, run),
+        3 => crate::comb::generate(prop, tier, rng, seed, run),
+        4 => crate::dev_gen::gen_c08(prop, tier, rng, seed, run / 8),
+        5 => crate::dev_gen::gen_c13(prop, tier, rng, seed, run / 8),
+        6 => crate::dev_gen::gen_c20(prop, tier, rng, seed, run / 8),
+        _ => crate::settable::generate(prop, tier, rng, seed, run),
     }
 }
